@@ -39,6 +39,18 @@ Set(pk, v) ==
     /\ cfg' = r.cfg
     /\ ev' = [op |-> "Set", p |-> pk[1], k |-> pk[2], v |-> v, out |-> Outcome(r)]
 
+\* cfg.items = [item]: a ready-made item taken out of the `items` list of ANOTHER configuration of
+\* the same schema (which has a key file of its own).  Whatever it was part of before, it now
+\* belongs to this configuration.
+AdoptedItem == LET f == FieldOf(S, "items").item
+                   d == DefaultCfg(f, <<"items">>).cfg
+                   a == SetPath(f, d, <<>>, "u", StrV(<<"o">>)).cfg
+               IN  SetPath(f, a, <<>>, "pw", StrV(<<"a", "d", "o", "p", "t", "p", "w", "#", "1">>)).cfg
+Adopt ==
+    LET r == SetPath(S, cfg, <<>>, "items", ListV(<<[t |-> "cfgobj", c |-> AdoptedItem]>>)) IN
+    /\ cfg' = r.cfg
+    /\ ev' = [op |-> "Adopt", out |-> Outcome(r)]
+
 \* key files a save or load opens: those of configurations that hold a non-empty secret
 RECURSIVE KeysUsed(_, _)
 KeysUsed(Sx, c) ==
@@ -84,6 +96,7 @@ Tick == steps < MaxDepth /\ steps' = steps + 1
 Next ==
     \/ \E pk \in DOMAIN SetCands : \E v \in SetCands[pk] : Tick /\ Set(pk, v)
     \/ \E f \in Formats : Tick /\ RoundTrip(f)
+    \/ Tick /\ Adopt
     \/ \E vi \in BOOLEAN, m \in Masks, via \in Vias : Tick /\ Render(vi, m, via)
 
 ---------------------------------------------------------------------------
